@@ -55,8 +55,8 @@ MULTIBYTE = ["\u00e9", "\u4f60", "\U0001F606", "\u0085", "\u00a0", "\u2028", "\u
 FRAGMENTS = ["make", "x", "get", "1", "1.", "1.5", ".", "12ab", '"', "'", '"a"', "\\", "\\n", "\\q", "#", "\n", "\r", " ", "\t",
              "if", "to", "say", "not", "so", "small", "pass", "(", ")", "[", ",", "@", "_a1", "start", "end", "do", "return"]
 
-# 24-symbol alphabet of the bounded-exhaustive set (token fragments + multi-byte characters)
-ALPHABET = ["1", ".", "a", "if", " to", " say", " not so", "small", " pass", '"', "'", "\\", "n", "#", "\n", "\r", " ", "\t",
+# alphabet of the bounded-exhaustive set (token fragments + multi-byte characters)
+ALPHABET = ["1", ".", "a", "if", " to", " say", " not so", "small", " pass", '"', "'", "\\", "n", "#", "\n", "\r", "\r\n", " ", "\t",
             "(", "@", "\u00e9", "\u4f60", "\U0001F606", "_"]
 
 
@@ -231,6 +231,125 @@ def gen_layouts(rng, progs, n):
     return out
 
 
+
+def builtin_names():
+    """Names in the `from_name` tables of src/builtins/*.rs (re-read from the tree under test)."""
+    names = set()
+    d = os.path.join(common.REPO, "src", "builtins")
+    if os.path.isdir(d):
+        for fn in sorted(os.listdir(d)):
+            if fn.endswith(".rs"):
+                try:
+                    src = open(os.path.join(d, fn), encoding="utf-8").read()
+                except OSError:
+                    continue
+                for m in re.finditer(r"fn\s+from_name[^{]*\{(.*?)\n    \}", src, re.S):
+                    names.update(re.findall(r'"([a-z_]+)"\s*=>', m.group(1)))
+    return sorted(names) or ["len", "slice", "join", "push", "find", "replace", "split", "abs", "shout", "typeof", "command", "cwd", "env"]
+
+
+RELAYOUT_SEPS = [" ", "  ", "\n", "\r\n", "\r", "\t", "\r\n\r\n", " \t ", "\n# c\n", "\r\n# c\r\n", ""]
+
+
+def relayout(rng, text, style=None):
+    """Non-canonical layout of a text: the blanks between its pieces are replaced (CR, LF, CRLF, tabs,
+    doubled blanks, comments); pieces that were adjacent may get a blank too when that is harmless
+    (around punctuation).  `style` fixes one line terminator for the whole text."""
+    ps = [p for p in pieces(text) if not p.startswith("#")]
+    out = []
+    for i, p in enumerate(ps):
+        if p.isspace():
+            out.append(style if style is not None and "\n" in p else rng.choice(RELAYOUT_SEPS[:-1]) if style is None else (style if rng.random() < 0.3 else " "))
+        else:
+            out.append(p)
+            nxt = ps[i + 1] if i + 1 < len(ps) else ""
+            if nxt and not nxt.isspace() and (p in "([,." or nxt in ")],.([") and rng.random() < 0.5:
+                out.append(rng.choice([" ", "  ", "\t", style or "\n"]))
+    return "".join(out)
+
+
+def gen_static_errors(rng, n):
+    """Programs the parser accepts but the static checker has to reject or warn about: every built-in
+    (function or method) applied to receivers and arguments of every literal type and with wrong
+    argument counts, undeclared / redeclared names, misplaced comot / next / return, unused and
+    unreachable code; each in a canonical and in a non-canonical layout."""
+    names = builtin_names()
+    recv = ['"str"', "[1, 2]", "5", "true", "null", "s", "a", "n", "cmd", "res", "p", "f()", "a[0]", '"x".trim()']
+    lits = ['"t"', "1", "2.5", "true", "null", "[1]", "s", "n", "a", "p", "undeclared", "f()", '"{s}"', "(1 add 2)", "minus 1", "not true"]
+    prelude = 'make s get "text"\nmake a get [1, 2, 3]\nmake n get 4\nmake cmd get command("true")\ndo f() start return 1 end\n' \
+              'do g(p) start\n  return p\nend\n'
+    out = []
+    for _ in range(n):
+        lines = []
+        for _ in range(rng.randint(1, 4)):
+            r = rng.random()
+            args = ", ".join(rng.choice(lits) for _ in range(rng.choice([0, 1, 1, 1, 2, 2, 3])))
+            if r < 0.45:
+                call = "%s.%s(%s)" % (rng.choice(recv), rng.choice(names), args)
+            elif r < 0.6:
+                call = "%s(%s)" % (rng.choice(names + ["f", "g", "h"]), args)
+            elif r < 0.7:
+                call = "%s %s %s" % (rng.choice(lits), rng.choice(["add", "minus", "times", "divide", "mod", "and", "or", "na", "pass", "small pass"]), rng.choice(lits))
+            elif r < 0.8:
+                call = "%s[%s]" % (rng.choice(recv), rng.choice(lits))
+            else:
+                call = rng.choice(lits)
+            form = rng.random()
+            if form < 0.3:
+                lines.append("shout(%s)" % call)
+            elif form < 0.5:
+                lines.append("make v%d get %s" % (rng.randrange(3), call))
+            elif form < 0.6:
+                lines.append("%s get %s" % (rng.choice(["s", "a", "n", "a[0]", "zz", "a[n]"]), call))
+            elif form < 0.7:
+                lines.append("if to say (%s) start\n  shout(1)\nend" % call)
+            elif form < 0.78:
+                lines.append("jasi (%s) start\n  comot\n  shout(2)\nend" % call)
+            elif form < 0.85:
+                lines.append(rng.choice(["comot", "next", "return %s" % call, "do f() start end", "do g(p, p) start return p end"]))
+            else:
+                lines.append(call)
+        text = prelude + "\n".join(lines) + "\n"
+        out.append(text)
+        out.append(relayout(rng, text, rng.choice([None, "\r\n", "\r", "\n"])))
+    return out
+
+
+def gen_relayouts_of(rng, texts, n):
+    """Non-canonical layouts (incl. CR / CRLF line ends) of texts from the error-producing streams."""
+    out = []
+    if not texts:
+        return out
+    for _ in range(n):
+        t = rng.choice(texts)
+        r = rng.random()
+        if r < 0.35:
+            out.append(t.replace("\r\n", "\n").replace("\n", "\r\n"))
+        elif r < 0.5:
+            out.append(t.replace("\r\n", "\n").replace("\n", "\r"))
+        else:
+            out.append(relayout(rng, t, rng.choice([None, "\r\n", "\r", "\n"])))
+    return out
+
+
+def gen_line_end_errors():
+    """Every lexical / syntactic error shape that can sit at the end of a line or of the text, in front of
+    every line terminator, with and without something still open at the end of input."""
+    ends = ["", "\n", "\r", "\r\n", "\n\n", "\r\n\r\n", " \r\n", "\r\n ", "\t\r\n", "\r\r\n", "\n\r"]
+    tails = ['"abc', '"abc\\', "'abc\\", '"a\\q', '"', '"\\', "1.", "12ab", "@", "\u00e9", "x get", "x get 1 add", "x[", "x[1", "f(", "f(1,",
+             "x.", "x.y", "x.y(", "# c", "make", "make x", "make x get", "if to say (", "if to say (x", "if to say (x)", "jasi (x) start",
+             "do f(", "do f(a", "do f(a)", "do f(a) start", "start", "return", "[1, ", "(", "(1", "not", "minus", '"a" add', '"{', '"{x']
+    opens = ["", "shout(", "make y get [", "x[", "do f() start\n", "if to say (true) start\r\n", "shout(1)\r\n", "make s get "]
+    out = []
+    for e in ends:
+        for t in tails:
+            for o in opens:
+                out.append(o + t + e)
+                if e:
+                    out.append("make k get 1" + e + o + t + e)
+    return out
+
+
 def gen_many_locals(rng, n):
     """Programs with many locals in nested functions (DESIGN section 7 row 11)."""
     out = []
@@ -287,12 +406,20 @@ def gen_cases(env):
     rng = env.rng
     quick = env.tier == "quick"
     progs = base_programs()
+    adjacency = gen_adjacency()
+    tokmut = gen_token_mutations(rng, progs, 1500 if quick else 40000)
+    semmut = gen_semantic_mutations(rng, progs, 1500 if quick else 40000)
+    noise = gen_noise(rng, progs, 1500 if quick else 40000)
+    static = gen_static_errors(rng, 700 if quick else 20000)
     streams = [
         ("corpus", corpus_cases()),
-        ("adjacency", gen_adjacency()),
-        ("token-mutation", gen_token_mutations(rng, progs, 1500 if quick else 40000)),
-        ("semantic-mutation", gen_semantic_mutations(rng, progs, 1500 if quick else 40000)),
-        ("byte-noise", gen_noise(rng, progs, 1500 if quick else 40000)),
+        ("adjacency", adjacency),
+        ("line-end-errors", gen_line_end_errors()),
+        ("token-mutation", tokmut),
+        ("semantic-mutation", semmut),
+        ("static-errors", static),
+        ("byte-noise", noise),
+        ("relayout-of-errors", gen_relayouts_of(rng, adjacency + tokmut + semmut + noise, 1500 if quick else 40000)),
         ("truncation", gen_truncations(progs, 6000 if quick else 10 ** 9)),
         ("layout", gen_layouts(rng, progs, 400 if quick else 8000)),
         ("many-locals", gen_many_locals(rng, 60 if quick else 1500)),
@@ -443,7 +570,7 @@ def oracle(lines, status):
     if status != "ok":
         probs.append(status + " " + " ".join(l for l in lines if l.startswith("STDERR")))
     for l in lines:
-        if l.startswith(("BAD ", "PANIC ")) or l == "RD unreadable":
+        if l.startswith(("BAD ", "PANIC ")) or l == "RD unreadable" or l.endswith("| R unreadable"):
             probs.append(l)
     return probs
 
@@ -546,6 +673,118 @@ def run_one(env, text, release=False):
     return r.get(0, ([], "died:?"))
 
 
+
+# ---------------------------------------------------------------------------- renderer on arbitrary spans
+
+RENDER_ALPHABET = ["a", "\t", "é", "\r", "\n"]
+
+
+def boundaries(b):
+    return [i for i in range(len(b) + 1) if i == 0 or i == len(b) or (b[i] & 0xC0) != 0x80]
+
+
+def render_cases(env):
+    """(hex text, diagnostic span, label spans) with every span well formed: the hypothesis of
+    C07_render_total, independent of which spans today's front end happens to produce.
+    Bounded-exhaustive: all texts over {a, TAB, e-acute, CR, LF} up to a length, every (start, end) on
+    boundaries with one label on the same span; for the shorter texts also a second label on every other
+    position (same-line and cross-line labels, empty spans, spans on and across line terminators).
+    Random: CR / LF / CRLF versions of sample programs with random multi-line spans."""
+    quick = env.tier == "quick"
+    rng = env.rng
+    alpha = RENDER_ALPHABET + ([] if quick else ["你", " "])
+    lmax, lmax2 = (5, 3) if quick else (6, 4)
+    out = []
+    for k in range(lmax + 1):
+        for w in itertools.product(alpha, repeat=k):
+            b = "".join(w).encode("utf-8")
+            h = b.hex() if b else "-"
+            bs = boundaries(b)
+            for i, a in enumerate(bs):
+                for e in bs[i:]:
+                    out.append("%s %d %d 1 %d %d" % (h, a, e, a, e))
+                    if k <= lmax2:
+                        for c in bs:
+                            out.append("%s %d %d 2 %d %d %d %d" % (h, a, e, a, e, c, c))
+                            out.append("%s %d %d 1 %d %d" % (h, a, e, c, len(b)))
+    progs = base_programs()
+    for _ in range(150 if quick else 3000):
+        t = rng.choice(progs)[:rng.randint(20, 400)]
+        t = t.replace("\n", rng.choice(["\n", "\r\n", "\r", "\r\n", "\t\r\n"]))
+        if rng.random() < 0.3:
+            t = t.replace(" ", rng.choice([" ", "\t", " é"]), rng.randint(1, 5))
+        b = t.encode("utf-8")
+        bs = boundaries(b)
+        # positions of interest: around every line terminator and the end
+        hot = sorted({j for i, x in enumerate(b) if x in (10, 13) for j in (i - 1, i, i + 1) if 0 <= j <= len(b) and j in set(bs)} | {0, len(b)})
+        for _ in range(10):
+            pick = lambda: rng.choice(hot) if rng.random() < 0.6 else rng.choice(bs)
+            a, e = sorted((pick(), pick()))
+            c, d = sorted((pick(), pick()))
+            out.append("%s %d %d 2 %d %d %d %d" % (b.hex(), a, e, a, e, c, d))
+    return out
+
+
+def run_render_pair(env, name, lines):
+    """(impl lines, model lines) for renderer input lines; impl in shards (a dead worker is an error)."""
+    def one(i, part):
+        inp = os.path.join(env.work, "%s_%d.rin" % (name, i))
+        open(inp, "w").write("\n".join(part) + "\n")
+        oi, om = inp + ".impl", inp + ".model"
+        rc1, o1 = common.sh([common.harness_bin(False), "frontend", "--render", inp, oi], timeout=600)
+        rc2, o2 = common.sh([common.NSMODEL, "frontend_render", inp, om], timeout=600) if os.path.exists(common.NSMODEL) else (1, "no nsmodel")
+        li = open(oi, encoding="utf-8", errors="replace").read().split("\n")[:-1] if rc1 == 0 and os.path.exists(oi) else None
+        lm = open(om, encoding="utf-8", errors="replace").read().split("\n")[:-1] if rc2 == 0 and os.path.exists(om) else None
+        return i, li, lm, (o1[-300:] if rc1 else "") + (o2[-300:] if rc2 else "")
+    size = max(1, (len(lines) + 7) // 8)
+    parts = [lines[i:i + size] for i in range(0, len(lines), size)]
+    impl, model, errs = [], [], []
+    with concurrent.futures.ThreadPoolExecutor(max_workers=8) as ex:
+        res = sorted(ex.map(lambda a: one(*a), enumerate(parts)))
+    for i, li, lm, err in res:
+        n = len(parts[i])
+        if err:
+            errs.append(err)
+        impl += li if li is not None and len(li) == n else [None] * n
+        model += lm if lm is not None and len(lm) == n else [None] * n
+    return impl, model, errs
+
+
+def compare_render(env, name, lines, impl_given=None):
+    """Returns (failures, disagreements, evaluated).  impl_given: read-backs already produced by the
+    pipeline run (G lines); otherwise the renderer is run on the lines."""
+    failures, disagreements = [], []
+    if not lines:
+        return failures, disagreements, 0
+    if impl_given is None:
+        impl, model, errs = run_render_pair(env, name, lines)
+    else:
+        _, model, errs = run_render_pair(env, name, lines)
+        impl = impl_given
+    for e in errs[:1]:
+        disagreements.append({"stream": "render-model", "error": e})
+    seen_f, seen_d = set(), 0
+    for l, a, b in zip(lines, impl, model):
+        if a is None or b is None:
+            continue
+        if a.startswith("R PANIC") or a == "R unreadable":
+            sig = re.sub(r"\d+", "N", a)[:120]
+            if sig not in seen_f:
+                seen_f.add(sig)
+                w = l.split()
+                failures.append({"key": "c07:render:" + sig + ":" + common.chash(l), "case": w[0], "text": unhx(w[0]),
+                                 "spans": " ".join(w[1:]), "observed": a, "model": b, "origin": name})
+        elif a != b:
+            seen_d += 1
+            if seen_d <= 3:
+                w = l.split()
+                disagreements.append({"stream": "render-model", "case": w[0], "text": unhx(w[0]), "spans": " ".join(w[1:]),
+                                      "impl": a, "model": b, "origin": name})
+            else:
+                disagreements.append({"stream": "render-model"})
+    return failures, disagreements, len(lines)
+
+
 def gate_stream(env, progs, n):
     """The real naija binary: a marked program with an error-level diagnostic must not run."""
     ok, out = common.build_naija()
@@ -605,6 +844,7 @@ def correspond(env, searching=False, model=True):
     tok_hist, diag_hist, gate_hist, len_hist = {}, {}, {}, {}
     non_ascii = 0
     model_blocks = {}
+    g_lines, g_impl = [], []
     if model:
         with concurrent.futures.ThreadPoolExecutor(max_workers=8) as ex:
             futs = {ex.submit(run_model, env, "m%d" % s0, part, "source"): s0 for s0, part in shards}
@@ -650,6 +890,12 @@ def correspond(env, searching=False, model=True):
                 continue
             if any(l.startswith(("T ", "D ")) for l in lines):
                 nontrivial.add(h)
+            if not release:
+                for l in lines:
+                    if l.startswith("G ") and " | " in l:
+                        head, rb = l.split(" | ", 1)
+                        g_lines.append(h + " " + " ".join(head.split()[2:]))
+                        g_impl.append(rb)
             if model and idx in model_blocks:
                 a = canon_impl_lex(lines)
                 b = canon_model_lex(model_blocks[idx])
@@ -696,6 +942,16 @@ def correspond(env, searching=False, model=True):
              "profiles": ["debug"] + (["release"] if env.tier == "thorough" else []),
              "proved": "lexer (Lexer.v) and renderer geometry/slicing (Render.v)", "monitored_only": "parser, resolver/analysis",
              "correspond_s": None}
+    # renderer: the spans the parser / resolver really produced (read back in the pipeline run) and
+    # arbitrary well-formed spans, both against the extracted Render.v (geometry and line text)
+    if model:
+        f1, d1, n1 = compare_render(env, "gspans", g_lines, g_impl)
+        f2, d2, n2 = compare_render(env, "wfspans", render_cases(env))
+        failures += f1 + f2
+        disagreements += d1 + d2
+        evaluations += n2
+        extra["render_frontend_spans"] = n1
+        extra["render_wf_span_cases"] = n2
     g_extra, g_fail = gate_stream(env, base_programs(), 120 if env.tier == "quick" else 1500)
     extra.update(g_extra)
     failures += g_fail
